@@ -160,6 +160,9 @@ func ParseSm2PublicKey(der []byte) (*sm2.PublicKey, error) {
 	}
 	curve := sm2.P256Sm2()
 	x, y := elliptic.Unmarshal(curve, pubkey.BitString.Bytes)
+	if x == nil {
+		return nil, errors.New("x509: failed to unmarshal elliptic curve point")
+	}
 	pub := sm2.PublicKey{
 		Curve: curve,
 		X:     x,
